@@ -8,19 +8,36 @@ use serde_json::{json, Value};
 pub enum Ct {
 	Auto,
 	Main,
+	Test,
 }
 impl Ct {
 	pub fn name(self) -> &'static str {
 		match self {
 			Ct::Auto => "auto",
 			Ct::Main => "main",
+			Ct::Test => "test",
 		}
 	}
 	pub fn parse(s: &str) -> Ct {
-		if s == "main" {
-			Ct::Main
-		} else {
-			Ct::Auto
+		match s {
+			"main" => Ct::Main,
+			"test" => Ct::Test,
+			_ => Ct::Auto,
+		}
+	}
+	pub fn chain_type(self) -> grin_core::global::ChainTypes {
+		use grin_core::global::ChainTypes;
+		match self {
+			Ct::Auto => ChainTypes::AutomatedTesting,
+			Ct::Main => ChainTypes::Mainnet,
+			Ct::Test => ChainTypes::Testnet,
+		}
+	}
+	pub fn magic(self) -> [u8; 2] {
+		match self {
+			Ct::Auto => [73, 43],
+			Ct::Main => [97, 61],
+			Ct::Test => [83, 59],
 		}
 	}
 }
@@ -36,8 +53,20 @@ pub enum Op {
 	Ident { fh: usize, fi: usize, h: Option<u8>, idx: Option<u64> },
 	/// a JSON value token replaced by value class `k`
 	Json { f: usize, k: u32 },
+	/// a JSON array replaced by `n` copies of its first element
+	JsonArray { f: usize, n: u64 },
 	/// consistent re-encoding of a segment proof with one hash less (-1), one more (+1) or none (0)
 	ProofLen { f: usize, delta: i8 },
+	/// a repeated group re-encoded with `n` copies of its first item (fields a..=z; the group ends with field e), the
+	/// count field c set to n; `inner` = (field of the item, value) set in every copy
+	Repeat { c: usize, a: usize, z: usize, e: usize, n: u64, inner: Option<(usize, u64)>, idh: Option<u8> },
+	/// joint mutation of a block header: version, height, edge_bits and a consistent re-encoding of the packed nonces
+	/// (`nv` 0: ascending with balanced parity, 1: ascending, 2: unsorted)
+	Era { fv: usize, fh: usize, fe: usize, ver: u16, height: u64, eb: u8, nv: u8 },
+	/// the announced length of the (single) frame set to `len`, the body padded / cut to exactly that many bytes
+	FrameLen { len: u64 },
+	/// only the first `cut` bytes are delivered, then the peer stays connected and silent
+	Silent { cut: usize },
 }
 
 #[derive(Clone, Debug)]
@@ -49,6 +78,9 @@ pub enum Desc {
 	Frame { ty: u8, k: u32, ver: u32, ct: Ct },
 	/// regression inputs of defects found by this engine and repaired since (see known_findings.json)
 	Reg { n: u32, ver: u32, rd: Rd },
+	/// many valid items: family `fam` (crate::families) built with `n` items by the repository's own encoders, decoded
+	/// through wrap `wrap` of the family
+	Big { fam: u16, n: u32, wrap: u16, ver: u32, rd: Rd, ct: Ct },
 }
 
 pub struct Case {
@@ -68,15 +100,18 @@ pub struct Case {
 pub struct Space {
 	pub targets: Vec<Target>,
 	pub seeds: Vec<(Ct, SeedEnc)>,
-	pub ops: Vec<(u32, Op, Value)>,
+	pub ops: Vec<(u32, Op, std::sync::Arc<Value>)>,
 	pub descs: Vec<Desc>,
 	pub seed: u64,
 	/// (target, bytes, aux, ctx, label)
 	pub regs: Vec<(usize, Vec<u8>, u64, Option<Vec<u8>>, String)>,
+	/// the last value built for a `Big` case (consecutive cases decode the same value through several wraps)
+	pub big_cache: std::sync::Mutex<Option<crate::families::Built>>,
 }
 
 /// targets whose behaviour depends on the chain type (proof size, block weight, PoW variant)
-const MAIN_TARGETS: [&str; 11] = [
+const MAIN_TARGETS: [&str; 12] = [
+	"stratum::submit",
 	"Proof::read",
 	"ProofOfWork::read",
 	"BlockHeader::read",
@@ -100,6 +135,15 @@ pub fn all_seeds(seed: u64) -> Vec<(Ct, SeedEnc)> {
 			&& (s.target != "Codec::read" || s.label.starts_with("header") || s.label.starts_with("block") || s.label.starts_with("compactblock"));
 		if keep {
 			v.push((Ct::Main, s));
+		}
+	}
+	// Testnet has its own frame magic and its own hard-fork heights: header-carrying encodings only
+	set_local_chain_type(ChainTypes::Testnet);
+	for s in seeds::build(seed, false) {
+		let keep = ["BlockHeader::read", "UntrustedBlockHeader::read", "ProofOfWork::read"].contains(&s.target)
+			|| (s.target == "Codec::read" && (s.label.starts_with("headerv") || s.label.starts_with("headersv") || s.label.starts_with("pingv")));
+		if keep {
+			v.push((Ct::Test, s));
 		}
 	}
 	set_local_chain_type(ChainTypes::AutomatedTesting);
@@ -146,14 +190,38 @@ fn plan_value(o: &Value) -> Option<u128> {
 	}
 }
 
+/// a codec seed made of a single frame keeps its announced length consistent with a re-encoded body
+fn fix_frame(s: &SeedEnc, out: &mut Vec<u8>) {
+	if s.target != "Codec::read" || s.fields.len() < 4 || s.fields[3].kind != "u64" || s.bytes.len() < 11 || out.len() < 11 {
+		return;
+	}
+	let mut l = [0u8; 8];
+	l.copy_from_slice(&s.bytes[3..11]);
+	if u64::from_be_bytes(l) as usize == s.bytes.len() - 11 {
+		let nl = (out.len() - 11) as u64;
+		out[3..11].copy_from_slice(&nl.to_be_bytes());
+	}
+}
+
 impl Space {
 	pub fn build(seed: u64, thorough: bool, plans: &[Value]) -> Space {
 		let targets = crate::targets::targets();
 		let seeds = all_seeds(seed);
 		let tix = |name: &str| targets.iter().position(|t| t.name == name).expect("target");
 		// ---- expand the TLC plans
-		let mut ops: Vec<(u32, Op, Value)> = vec![];
+		let mut ops: Vec<(u32, Op, std::sync::Arc<Value>)> = vec![];
+		let mut bigs: Vec<(u16, u32, Ct)> = vec![];
 		for p in plans {
+			if let Some(b) = p.get("big") {
+				// "many valid items": (family, chain type, count) chosen by the specification
+				if let (Some(f), Some(n)) = (b["fam"].as_str().and_then(crate::families::index_of), b["n"].as_u64()) {
+					let ct = Ct::parse(b["ct"].as_str().unwrap_or("auto"));
+					if crate::families::FAMILIES[f].cts.contains(&ct) && n <= 2_000_000 {
+						bigs.push((f as u16, n as u32, ct));
+					}
+				}
+				continue;
+			}
 			let lay = p["lay"].as_u64().expect("lay") as usize;
 			if lay >= seeds.len() {
 				continue;
@@ -163,7 +231,7 @@ impl Space {
 			for o in p["ops"].as_array().expect("ops") {
 				let name = o["op"].as_str().unwrap_or("");
 				// (the identifier plans expand to thousands of cases: keep only the class name with each of them)
-				let slim = if name.starts_with("ident") { json!({"op": name}) } else { o.clone() };
+				let slim = std::sync::Arc::new(if name.starts_with("ident") || name == "era" || name == "repeat" || name == "framelen" || name == "silent" { json!({"op": name}) } else { o.clone() });
 				let mut push = |op: Op| ops.push((lay as u32, op, slim.clone()));
 				match name {
 					"set" => {
@@ -230,7 +298,94 @@ impl Space {
 							}
 						}
 					}
+					"repeat" => {
+						// count field f; item = fields a..=z, the group ends with field e (1-based); `ns` plain copies; at count
+						// `ninner` every copy also carries the boundary value of one of its own fields
+						let g = |k: &str| o[k].as_u64().unwrap_or(0) as usize;
+						let (a, z, e) = (g("a"), g("z"), g("e"));
+						if a >= 1 && a <= z && z <= e && e <= s.fields.len() && f < a {
+							let item: usize = (a..=z).map(|i| s.fields[i - 1].w).sum();
+							let cap: u64 = 16 << 20;
+							let fits = |n: u64| n >= 1 && n.saturating_mul(item as u64) <= cap;
+							let idh = o["idh"].as_i64().filter(|h| *h >= 0 && *h <= 255 && s.ident.is_some()).map(|h| h as u8);
+							for n in o["ns"].as_array().map(|x| x.as_slice()).unwrap_or(&[]) {
+								if let Some(n) = n.as_u64() {
+									if fits(n) {
+										push(Op::Repeat { c: f - 1, a: a - 1, z: z - 1, e: e - 1, n, inner: None, idh });
+									}
+								}
+							}
+							for v in o["cs"].as_array().map(|x| x.as_slice()).unwrap_or(&[]) {
+								if let Some(v) = plan_value(v) {
+									let w = s.fields[f - 1].w;
+									if w >= 8 || v < (1u128 << (8 * w)) {
+										push(Op::Set { f: f - 1, val: v as u64 });
+									}
+								}
+							}
+							for ninner in o["nis"].as_array().map(|x| x.as_slice()).unwrap_or(&[]).iter().filter_map(|x| x.as_u64()).filter(|n| fits(*n)) {
+								for inn in o["inner"].as_array().map(|x| x.as_slice()).unwrap_or(&[]) {
+									let gi = inn["g"].as_u64().unwrap_or(0) as usize;
+									if gi < a || gi > z {
+										continue;
+									}
+									let w = s.fields[gi - 1].w;
+									for v in inn["vs"].as_array().map(|x| x.as_slice()).unwrap_or(&[]) {
+										if let Some(v) = plan_value(v) {
+											if w >= 8 || v < (1u128 << (8 * w)) {
+												push(Op::Repeat { c: f - 1, a: a - 1, z: z - 1, e: e - 1, n: ninner, inner: Some((gi - 1, v as u64)), idh });
+											}
+										}
+									}
+								}
+							}
+						}
+					}
+					"era" => {
+						// header version field f, height field g, edge_bits field e: cross product of the hard-fork boundary
+						// heights, the header versions and the edge_bits classes; the packed nonces are re-encoded
+						let g = o["g"].as_u64().unwrap_or(0) as usize;
+						let e = o["e"].as_u64().unwrap_or(0) as usize;
+						// (the fully valid block / compact block seeds are left out: their post-decode steps verify range proofs and
+						// signatures whatever the header says, a millisecond per case)
+						let ok = g >= 1 && e >= 1 && e < s.fields.len() && s.fields[f - 1].w == 2 && s.fields[g - 1].w == 8 && s.fields[e - 1].w == 1
+							&& !s.label.starts_with("valid");
+						if ok {
+							let mut k = 0u32;
+							for h in o["hs"].as_array().map(|x| x.as_slice()).unwrap_or(&[]) {
+								for v in o["vs"].as_array().map(|x| x.as_slice()).unwrap_or(&[]) {
+									for b in o["bs"].as_array().map(|x| x.as_slice()).unwrap_or(&[]) {
+										if let (Some(h), Some(v), Some(b)) = (h.as_u64(), v.as_u64(), b.as_u64()) {
+											k += 1;
+											push(Op::Era { fv: f - 1, fh: g - 1, fe: e - 1, ver: v as u16, height: h, eb: b as u8, nv: (k % 3) as u8 });
+										}
+									}
+								}
+							}
+						}
+					}
+					"silent" => {
+						if s.target == "Codec::read" {
+							for c in o["cuts"].as_array().map(|x| x.as_slice()).unwrap_or(&[]) {
+								push(Op::Silent { cut: c.as_u64().unwrap_or(0) as usize });
+							}
+						}
+					}
+					"framelen" => {
+						if s.target == "Codec::read" && s.fields.len() >= 4 && s.fields[3].kind == "u64" {
+							for l in o["ls"].as_array().map(|x| x.as_slice()).unwrap_or(&[]) {
+								if let Some(l) = l.as_u64() {
+									push(Op::FrameLen { len: l });
+								}
+							}
+						}
+					}
 					"json" => push(Op::Json { f: f - 1, k: o["k"].as_u64().unwrap_or(0) as u32 }),
+					"jarray" => {
+						if s.fields[f - 1].kind == "ja" {
+							push(Op::JsonArray { f: f - 1, n: o["n"].as_u64().unwrap_or(0) })
+						}
+					}
 					"proof" => {
 						for d in o["deltas"].as_array().map(|a| a.as_slice()).unwrap_or(&[]) {
 							push(Op::ProofLen { f: f - 1, delta: d.as_i64().unwrap_or(0) as i8 });
@@ -342,6 +497,12 @@ impl Space {
 						descs.push(Desc::Seed { seed: i as u32, ver: *v, rd: *rd });
 					}
 				}
+			} else if s.target == "Codec::read" {
+				// (a frame's header does not depend on the protocol version; its body may: the seed must still decode at
+				// its own version only, see `materialize`)
+				for v in VERSIONS.iter() {
+					descs.push(Desc::Seed { seed: i as u32, ver: *v, rd: Rd::Bin });
+				}
 			} else {
 				descs.push(Desc::Seed { seed: i as u32, ver: s.ver, rd: Rd::Bin });
 			}
@@ -372,8 +533,44 @@ impl Space {
 						descs.push(Desc::Mut { seed: *lay, op: j as u32, ver: *v, rd });
 					}
 				}
+			} else if s.target == "Codec::read" && !matches!(op, Op::Ident { .. } | Op::Era { .. } | Op::Silent { .. }) {
+				let vers: Vec<u32> = if thorough {
+					VERSIONS.to_vec()
+				} else {
+					let other = VERSIONS[j % 4];
+					if other == s.ver {
+						vec![s.ver]
+					} else {
+						vec![s.ver, other]
+					}
+				};
+				for v in vers {
+					descs.push(Desc::Mut { seed: *lay, op: j as u32, ver: v, rd: Rd::Bin });
+				}
 			} else {
 				descs.push(Desc::Mut { seed: *lay, op: j as u32, ver: s.ver, rd: Rd::Bin });
+			}
+		}
+		// ---- many valid items (consecutive cases share the value built for (family, count, chain type))
+		for (k, (fam, n, ct)) in bigs.iter().enumerate() {
+			let ws = crate::families::wraps(*fam as usize, *ct);
+			let body = crate::families::FAMILIES[*fam as usize].name.starts_with("body.");
+			let vers: &[u32] = if body { &[1, 2, 3] } else { &[1] };
+			for (w, (t, _)) in ws.iter().enumerate() {
+				for (vi, v) in vers.iter().enumerate() {
+					// (quick tier: every wrap of a body at one of the three encodings, rotating)
+					if body && !thorough && (k + w) % 3 != vi {
+						continue;
+					}
+					let ser = targets[tix(t)].kind == TKind::Ser;
+					if ser && (thorough || !body) {
+						descs.push(Desc::Big { fam: *fam, n: *n, wrap: w as u16, ver: *v, rd: Rd::Bin, ct: *ct });
+						descs.push(Desc::Big { fam: *fam, n: *n, wrap: w as u16, ver: *v, rd: Rd::Buf, ct: *ct });
+					} else {
+						let rd = if !ser || (k + w + vi) % 2 == 0 { Rd::Buf } else { Rd::Bin };
+						descs.push(Desc::Big { fam: *fam, n: *n, wrap: w as u16, ver: *v, rd: if ser { rd } else { Rd::Bin }, ct: *ct });
+					}
+				}
 			}
 		}
 		let n_rnd: u32 = if thorough { 400_000 } else { 20_000 };
@@ -407,7 +604,7 @@ impl Space {
 				descs.push(Desc::Frame { ty, k, ver: VERSIONS[(k % 4) as usize], ct });
 			}
 		}
-		Space { targets, seeds, ops, descs, seed, regs }
+		Space { targets, seeds, ops, descs, seed, regs, big_cache: std::sync::Mutex::new(None) }
 	}
 
 	pub fn target_index(&self, name: &str) -> usize {
@@ -487,6 +684,49 @@ impl Space {
 				out.extend_from_slice(&b[fl.off + fl.w..]);
 				out
 			}
+			Op::JsonArray { f, n } => {
+				let fl = &s.fields[*f];
+				let text = &b[fl.off..fl.off + fl.w];
+				// first element: up to the first comma / bracket at nesting depth 1
+				let mut depth = 0i32;
+				let mut end = text.len().saturating_sub(1);
+				let mut in_str = false;
+				let mut i = 0;
+				while i < text.len() {
+					match text[i] {
+						b'\\' if in_str => i += 1,
+						b'"' => in_str = !in_str,
+						b'[' | b'{' if !in_str => depth += 1,
+						b']' | b'}' if !in_str => {
+							depth -= 1;
+							if depth == 0 {
+								end = i;
+								break;
+							}
+						}
+						b',' if !in_str && depth == 1 => {
+							end = i;
+							break;
+						}
+						_ => {}
+					}
+					i += 1;
+				}
+				let first: &[u8] = if end > 1 { &text[1..end] } else { b"0" };
+				// (at most 3 MB of copies)
+				let n = (*n).min((3u64 << 20) / (first.len() as u64 + 1));
+				let mut out = b[..fl.off].to_vec();
+				out.push(b'[');
+				for k in 0..n {
+					if k > 0 {
+						out.push(b',');
+					}
+					out.extend_from_slice(first);
+				}
+				out.push(b']');
+				out.extend_from_slice(&b[fl.off + fl.w..]);
+				out
+			}
 			Op::ProofLen { f, delta } => {
 				let fl = &s.fields[*f];
 				let mut cnt = [0u8; 8];
@@ -518,6 +758,93 @@ impl Space {
 				}
 				out
 			}
+			Op::Repeat { c, a, z, e, n, inner, idh } => {
+				let (fa, fz, fe, fc) = (&s.fields[*a], &s.fields[*z], &s.fields[*e], &s.fields[*c]);
+				let mut item = b[fa.off..fz.off + fz.w].to_vec();
+				if let Some((g, v)) = inner {
+					let fg = &s.fields[*g];
+					let be = v.to_be_bytes();
+					if fg.w <= 8 && fg.off >= fa.off {
+						let o = fg.off - fa.off;
+						item[o..o + fg.w].copy_from_slice(&be[8 - fg.w..]);
+					}
+				}
+				let mut out = Vec::with_capacity(fa.off + item.len() * *n as usize + (b.len() - fe.off - fe.w));
+				out.extend_from_slice(&b[..fa.off]);
+				for _ in 0..*n {
+					out.extend_from_slice(&item);
+				}
+				out.extend_from_slice(&b[fe.off + fe.w..]);
+				let be = n.to_be_bytes();
+				if fc.w <= 8 {
+					out[fc.off..fc.off + fc.w].copy_from_slice(&be[8 - fc.w..]);
+				}
+				if let (Some(h), Some((fh, fi))) = (idh, s.ident) {
+					// (the identifier precedes the group: same offsets in the re-encoding)
+					if s.fields[fh].off < fa.off && s.fields[fi].off + 8 <= fa.off {
+						out[s.fields[fh].off] = *h;
+						let o = s.fields[fi].off;
+						out[o..o + 8].copy_from_slice(&0u64.to_be_bytes());
+					}
+				}
+				fix_frame(s, &mut out);
+				out
+			}
+			Op::Era { fv, fh, fe, ver, height, eb, nv } => {
+				let mut out = b.clone();
+				let o = s.fields[*fv].off;
+				out[o..o + 2].copy_from_slice(&ver.to_be_bytes());
+				let o = s.fields[*fh].off;
+				out[o..o + 8].copy_from_slice(&height.to_be_bytes());
+				out[s.fields[*fe].off] = *eb;
+				if *eb >= 1 && *eb <= 63 && fe + 1 < s.fields.len() {
+					// nonces below 2^edge_bits, packed by the repository's own encoder (proof size of the chain type in force)
+					let fnon = &s.fields[fe + 1];
+					let n = grin_core::global::proofsize();
+					let mask: u64 = if *eb >= 63 { u64::MAX >> 1 } else { (1u64 << *eb) - 1 };
+					let mut st = (*height).wrapping_mul(0x9E3779B97F4A7C15) ^ ((*eb as u64) << 32) ^ *ver as u64;
+					let mut v: Vec<u64> = (0..n).map(|_| splitmix(&mut st) & (mask >> 1)).collect();
+					if *nv != 2 {
+						v.sort_unstable();
+						// strictly ascending
+						for i in 1..v.len() {
+							if v[i] <= v[i - 1] {
+								v[i] = v[i - 1] + 1;
+							}
+						}
+					}
+					let nonces: Vec<u64> = match nv {
+						0 => v.iter().enumerate().map(|(i, x)| ((x << 1) | (i as u64 & 1)) & mask).collect(),
+						_ => v.iter().map(|x| x & mask).collect(),
+					};
+					let packed = grin_core::pow::Proof { edge_bits: *eb, nonces }.pack_nonces();
+					let mut o2 = out[..fnon.off].to_vec();
+					o2.extend_from_slice(&packed);
+					o2.extend_from_slice(&out[fnon.off + fnon.w..]);
+					out = o2;
+				}
+				fix_frame(s, &mut out);
+				out
+			}
+			Op::Silent { cut } => b[..(*cut).min(b.len())].to_vec(),
+			Op::FrameLen { len } => {
+				// the whole announced body is present (up to 12 MB), so that a frame admitted by the header check is read in full
+				let cap = (*len).min(12_000_000) as usize;
+				let mut out = b[..b.len().min(11)].to_vec();
+				if out.len() == 11 {
+					out[3..11].copy_from_slice(&len.to_be_bytes());
+					let body = &b[11..];
+					if body.is_empty() {
+						out.resize(11 + cap, 0);
+					} else {
+						while out.len() < 11 + cap {
+							let take = body.len().min(11 + cap - out.len());
+							out.extend_from_slice(&body[..take]);
+						}
+					}
+				}
+				out
+			}
 			Op::Splice { f, from, g, insert } => {
 				let fl = &s.fields[*f];
 				let d = &self.seeds[*from].1;
@@ -537,7 +864,7 @@ impl Space {
 		match d {
 			Desc::Seed { seed, ver, rd } => {
 				let (ct, s) = &self.seeds[*seed as usize];
-				let same = *ver == s.ver || self.targets[self.target_index(s.target)].kind != TKind::Ser;
+				let same = *ver == s.ver;
 				Case {
 					target: self.target_index(s.target),
 					ver: *ver,
@@ -551,19 +878,42 @@ impl Space {
 					expect_post: s.expect_post && same,
 				}
 			}
+			Desc::Big { fam, n, wrap, ver, rd, ct } => {
+				let mut cache = self.big_cache.lock().unwrap();
+				let built = crate::alloc_track::unmeasured(|| crate::families::build(&mut cache, self.seed, *fam as usize, *n, *wrap as usize, *ver, *ct));
+				let name = crate::families::FAMILIES[*fam as usize].name;
+				let (target, bytes, aux, ctx) = match built {
+					Some((t, b, a, c)) => (self.target_index(t), b, a, c),
+					// (the encoder refused this count: an empty input for the first wrap's decoder)
+					None => (self.target_index(crate::families::wraps(*fam as usize, *ct)[0].0), vec![], 0, None),
+				};
+				Case {
+					target,
+					ver: *ver,
+					rd: *rd,
+					ct: *ct,
+					bytes,
+					aux,
+					ctx,
+					origin: json!({"gen": "big", "fam": name, "n": n, "wrap": wrap}),
+					expect_ok: false,
+					expect_post: false,
+				}
+			}
 			Desc::Mut { seed, op, ver, rd } => {
 				let (ct, s) = &self.seeds[*seed as usize];
 				let (_, o, plan) = &self.ops[*op as usize];
+				grin_core::global::set_local_chain_type(ct.chain_type());
 				Case {
 					target: self.target_index(s.target),
 					ver: *ver,
 					rd: *rd,
 					ct: *ct,
 					bytes: self.apply(s, o),
-					aux: s.aux,
+					aux: s.aux | if matches!(o, Op::Silent { .. }) { crate::targets::AUX_SILENT } else { 0 },
 					ctx: s.ctx.clone(),
-					origin: json!({"gen": "mut", "seed": s.label, "enc_ver": s.ver, "lay": seed, "plan": plan, "op": format!("{:?}", o),
-						"field_kind": match o { Op::Set{f,..} | Op::Drop{f} | Op::Dup{f} | Op::Splice{f,..} | Op::ProofLen{f,..} | Op::Json{f,..} => s.fields[*f].kind, Op::Ident{..} => "ident", _ => "" }}),
+					origin: json!({"gen": "mut", "seed": s.label, "enc_ver": s.ver, "lay": seed, "plan": &**plan, "op": format!("{:?}", o),
+						"field_kind": match o { Op::Set{f,..} | Op::Drop{f} | Op::Dup{f} | Op::Splice{f,..} | Op::ProofLen{f,..} | Op::Json{f,..} | Op::JsonArray{f,..} => s.fields[*f].kind, Op::Ident{..} => "ident", Op::Era{..} => "era", Op::Repeat{..} => "repeat", Op::FrameLen{..} => "framelen", Op::Silent{..} => "silent", _ => "" }}),
 					expect_ok: false,
 					expect_post: false,
 				}
@@ -590,7 +940,7 @@ impl Space {
 					rd: *rd,
 					ct: *ct,
 					bytes,
-					aux: splitmix(&mut st) & !(1 << 63),
+					aux: splitmix(&mut st) & !(3 << 62),
 					ctx: None,
 					origin: json!({"gen": "rnd", "k": k}),
 					expect_ok: false,
@@ -619,7 +969,7 @@ impl Space {
 					rd: *rd,
 					ct: *ct,
 					bytes,
-					aux: if r & 8 == 0 { s.aux } else { splitmix(&mut st) & !(1 << 63) },
+					aux: if r & 8 == 0 { s.aux } else { splitmix(&mut st) & !(3 << 62) },
 					ctx: s.ctx.clone(),
 					origin: json!({"gen": "prefix", "seed": s.label, "enc_ver": s.ver, "k": k, "cut": cut}),
 					expect_ok: false,
